@@ -262,10 +262,20 @@ func c18Quote(keys []string) string {
 	return "[" + strings.Join(q, " ") + "]"
 }
 
-// TestVerifC18Mem explores the two in-memory implementations.
+// TestVerifC18Mem explores the two in-memory implementations over the
+// prefix-chain universe with three value kinds (the value kind is orthogonal to
+// keys, order and callbacks; TestVerifC18MemValues adds the other kinds).
 func TestVerifC18Mem(t *testing.T) {
 	c18Run(t, "C18-statestore-mem-mock", []int{c18ImplLdbMem, c18ImplMock},
-		mc.EnvInt("VERIF_C18_SIZE", mc.Pick(1, 0)), mc.EnvInt("VERIF_C18_DEPTH", mc.Pick(4, 5)))
+		mc.EnvInt("VERIF_C18_SIZE", 1), mc.EnvInt("VERIF_C18_DEPTH", mc.Pick(4, 5)))
+}
+
+// TestVerifC18MemValues (thorough only): all five value kinds, one step shallower.
+func TestVerifC18MemValues(t *testing.T) {
+	if !mc.Thorough() {
+		t.Skip("thorough tier only")
+	}
+	c18Run(t, "C18-statestore-mem-mock-all-values", []int{c18ImplLdbMem, c18ImplMock}, 0, mc.EnvInt("VERIF_C18_VALUES_DEPTH", 4))
 }
 
 // TestVerifC18Bytes explores the two in-memory implementations over the
